@@ -235,6 +235,7 @@ func genCase(rt *rapid.T) *Case {
 	}
 	c := b.done()
 	c.Reuse = rapid.IntRange(0, 3).Draw(rt, "reuseStoreValue") == 0
+	c.Root = rp.Pick(rt, "rootDirName", "", "", "", "cfg[1]", "notation*", "c?g", "cf\\g", "[c]fg")
 	if rapid.IntRange(0, 4).Draw(rt, "endingContext") == 0 {
 		c.CtxPolls = rapid.IntRange(1, 6).Draw(rt, "ctxPolls")
 	}
